@@ -1,6 +1,7 @@
 import Driver.Util
 import Driver.Script
 import SfModel.Faults
+import SfModel.FaultsRaw
 open Sf Sf.Faults
 
 /-! `sfmodel faults` — the C15 correspondence driver: the harness script language (the subset below) interpreted on
@@ -8,7 +9,7 @@ open Sf Sf.Faults
 
       store sN <hex> | open hN sM r|w|rw fmt= ch= sr=   (the open itself is fault free: Sf.openHandle)
       fault at=<n> kind=<k> [single=1]                   (restarts the callback counter, like the harness)
-      iolog on | iolog dump | r … | w … | seek … | cmd hN 1060|1061 <size> null | close hN | dump sN
+      iolog on | iolog dump | r … | w … | rraw hN <bytes> | wraw hN <bytes> <hex> | seek … | cmd hN 1060|1061 <size> null | close hN | dump sN
 
     `r` prints only the `ret` items that were delivered (the comparer cuts the implementation's line the same way). -/
 
@@ -99,6 +100,14 @@ def runLine (st : St) (line : String) : St × Option String :=
       let (st', out) := withH st hn (fun h => stepRead st.oracle h st.hist ty (unit == "f") (parseIntStr n))
         (fun h o => s!"ret={o.ret} {errStr o.err} data={showItems ty (o.data.take (if unit == "f" then o.ret.toNat * h.ch else o.ret.toNat))}")
       (st', some out)
+  | "wraw" :: hn :: n :: drest =>      -- sf_write_raw (SfModel/FaultsRaw.lean)
+    let (st', out) := withH st hn (fun h => FaultsRaw.stepWriteRaw st.oracle h st.hist (parseIntStr n) (parseHexBytes (drest.headD "")))
+      (fun _ o => s!"ret={o.ret} {errStr o.err}")
+    (st', some out)
+  | ["rraw", hn, n] =>                 -- sf_read_raw: prints the `ret` bytes that were delivered
+    let (st', out) := withH st hn (fun h => FaultsRaw.stepReadRaw st.oracle h st.hist (parseIntStr n))
+      (fun _ o => s!"ret={o.ret} {errStr o.err} data={hexBytes ((o.data.take o.ret.toNat).map Int.toNat)}")
+    (st', some out)
   | ["seek", hn, off, wh] =>
     let (st', out) := withH st hn (fun h => stepSeek st.oracle h st.hist (parseIntStr off) (parseIntStr wh))
       (fun _ o => s!"ret={o.ret} {errStr o.err}")
